@@ -133,8 +133,11 @@ PROPS = {
         "assumptions": ["common feature subset as listed in the property's quantifier"],
     },
     "C14": {
-        "profile": None, "n_quick": 1500, "n_thorough": 40000, "cfgs": ["puml"],
-        "custom": "puml",
+        "profile": "frontend", "n_quick": 1500, "n_thorough": 40000, "n_machines_quick": 4, "n_machines_thorough": 30,
+        "nops": 18, "nlists": 3,
+        "cfgs": ["back", "back@basic", "back@row2", "back_fct@basic", "back_fct@row2", "back11@basic", "back11@row2",
+                 "mp11", "mp11@basic", "mp11@row2f", "mp11_fct@row2f", "mp11_fpa@basic"],
+        "custom": "puml", "machines": True,
         "monitor": None, "relevant": lambda fd, r: True,
         "rule": "PlantUML lines generated from the documented line grammar (identifiers, 1-4 dashes, optional event / "
                 "internal '-event' / Kleene '*', 0-3 actions, optional guard expression, either order of the action and guard "
@@ -224,9 +227,9 @@ def prebuild():
     seed = int(os.environ.get("VERIF_SEED", "1"))
     jobs = {}
     for prop, spec in PROPS.items():
-        if spec.get("custom"):
+        if spec.get("custom") and not spec.get("machines"):
             continue
-        for name, g, md in checklib.machines_for(spec["profile"], seed, spec["n_quick"]):
+        for name, g, md in checklib.machines_for(spec["profile"], seed, spec["n_machines_quick"] if spec.get("custom") else spec["n_quick"]):
             for c in spec["cfgs"]:
                 md2 = msmgen.adapt(md, c)
                 if md2 is not None:
